@@ -72,8 +72,12 @@ def check(pid, tier, seed):
     gok, gout = gen_all.regenerate()
     if not gok:
         problems.append({"kind": "translator", "what": gout[-1500:]})
-    bok, blog = coq_build()
-    pok, nthm, axioms, plog = build_property_file(pid)
+    has_proofs = getattr(P, "LEVEL", "proof") == "proof"
+    if has_proofs:
+        bok, blog = coq_build()
+        pok, nthm, axioms, plog = build_property_file(pid)
+    else:
+        bok, blog, pok, nthm, axioms, plog = True, "", True, 0, [], ""
     discharged = nthm if (bok and pok) else 0
     if not (bok and pok):
         log = (blog if not bok else plog)
@@ -121,7 +125,7 @@ def check(pid, tier, seed):
         if t is not None:
             terms.append((i, t))
     corr_fail = set(); ncorr = 0; clog = ""
-    if terms and bok:
+    if terms and bok and has_proofs:
         corr_fail, ncorr, clog = run_coq_cases(pid, P.COQ_HEADER, terms, P.CHECK_FN)
         if -1 in corr_fail:
             problems.append({"kind": "correspondence-run", "what": clog[-1500:]})
@@ -181,7 +185,7 @@ def check(pid, tier, seed):
     samples = []
     for c in cases[:: max(1, len(cases) // 3)][:3]:
         samples.append(json.loads(json.dumps(c, default=str))) if len(json.dumps(c, default=str)) < 3000 else samples.append({"tags": c.get("tags")})
-    cov = {"obligations": max(nthm, 1), "discharged": discharged,
+    cov = {"obligations": nthm, "discharged": discharged,
            "checker_cmd": "cd /verif/coq && make theories/Properties/%s.vo  (coqc 8.16.1, full .vo build; Print Assumptions under every theorem)" % pid,
            "trusted_base": ["Coq 8.16.1 kernel and vm_compute"] + ["axiom: " + a for a in axioms] + P.TRUSTED,
            "theorems": getattr(P, "THEOREMS", []),
